@@ -82,6 +82,21 @@ pub unsafe fn exit(status: c_int) -> ! {
         hooks_run: true,
     })
 }
+/// Raw system calls with one integer argument (the real `syscall` is variadic,
+/// which neither this crate nor CBMC can define): `SYS_exit` ends only the calling
+/// thread, `SYS_exit_group` the process; anything else is outside the model.
+pub unsafe fn syscall(num: c_long, a1: c_int) -> c_long {
+    if num == SYS_exit_group {
+        model::die(model::Outcome::Exited {
+            status: a1,
+            hooks_run: false,
+        })
+    } else if num == SYS_exit {
+        model::die(model::Outcome::ThreadExited { status: a1 })
+    } else {
+        model::die(model::Outcome::UnmodelledSyscall)
+    }
+}
 pub unsafe fn send(fd: c_int, buf: *const c_void, len: size_t, flags: c_int) -> ssize_t {
     model::sys_write(fd, buf, len, Some(flags))
 }
